@@ -305,6 +305,8 @@ TraceClean ==
          EntriesOf(f, p) == IF f = f0 THEN EE0[p] ELSE EE1[p]
          IsAddr(p, h) == <<p, h>> \in addrM
          Prot(h) == Protected(NameOfId(IdOfHeader(h)), program)
+         Why(test) == IF SkipProtected(test) THEN "skip" ELSE IF FilteredOut(test, program) THEN "run" ELSE ""
+         WhyH(h) == Why(NameOfId(IdOfHeader(h)))
          MayL  == [p \in usedM |-> {h \in EE0[p] : ~IsAddr(p, h) /\ ~Prot(h)}]
          MustL == [p \in usedM |-> IF mode.run # "" THEN {} ELSE MayL[p]]
          MustList(p) == MustL[p]
@@ -317,7 +319,7 @@ TraceClean ==
          listMM ==
            SetToSeq({MM("clean.entry.unlisted", ToString(ReqL(id)), ToString(CountIn(sum.tests, id)), "", "", id, "")
                       : id \in {id \in ids : CountIn(sum.tests, id) < ReqL(id)}})
-           \o SetToSeq({MM("clean.entry.overlisted", ToString(MaxL(id)), ToString(CountIn(sum.tests, id)), "", "", id,
+           \o SetToSeq({MM("clean.entry.overlisted", ToString(MaxL(id)), ToString(CountIn(sum.tests, id)), Why(NameOfId(id)), "", id,
                            IF \E p \in usedM : \E h \in EE0[p] : IdOfHeader(h) = id /\ IsAddr(p, h)
                            THEN "addressed"
                            ELSE IF \E p \in usedM : \E h \in EE0[p] : IdOfHeader(h) = id /\ Prot(h)
@@ -333,14 +335,14 @@ TraceClean ==
                survivorsOrder0 == SelectSeq(p0.order, LAMBDA h : h \in e1)
                sorted0 == IsNaturallySorted([i \in DOMAIN p0.order |-> IdOfHeader(p0.order[i])])
            IN  (IF IsFile(f0, p) /\ ~IsFile(f1, p) THEN <<MM("clean.file.removed", "", "", "", p, "", "used")>> ELSE <<>>)
-            \o SetToSeq({MM("clean.entry.removed", "", "", "", p, h,
+            \o SetToSeq({MM("clean.entry.removed", "", "", WhyH(h), p, h,
                             IF IsAddr(p, h) THEN "addressed" ELSE IF Prot(h) THEN "protected"
                             ELSE IF ~del THEN "nodelete" ELSE "unlisted")
                          : h \in {h \in removed : IsAddr(p, h) \/ Prot(h) \/ ~del \/ h \notin listedH}})
             \o SetToSeq({MM("clean.entry.kept", "", "", "", p, h, "") :
                           h \in {h \in e0 \cap e1 : del /\ h \in MayList(p) /\ h \in listedH}})
             \o SetToSeq({MM("clean.entry.added", "", "", "", p, h, "") : h \in e1 \ e0})
-            \o SetToSeq({MM("clean.entry.value", "", "", "", p, h,
+            \o SetToSeq({MM("clean.entry.value", "", "", WhyH(h), p, h,
                             IF IsAddr(p, h) THEN "addressed" ELSE IF Prot(h) THEN "protected" ELSE "other")
                          : h \in {h \in e0 \cap e1 : BodyOf(p0, h) # BodyOf(p1, h)}})
             \o (IF IsFile(f1, p) /\ ~p1.wellformed THEN <<MM("clean.file.malformed", "", "", "", p, "", "")>> ELSE <<>>)
@@ -357,15 +359,19 @@ TraceClean ==
          FProt(p) ==
            \/ (p \in DOMAIN owner /\ Protected(owner[p], program))
            \/ (p \in DOMAIN order /\ \E h \in EE0[p] : Prot(h))
+         FWhy(p) ==
+           IF p \in DOMAIN owner /\ Protected(owner[p], program) THEN Why(owner[p])
+           ELSE IF p \in DOMAIN order /\ \E h \in EE0[p] : SkipProtected(NameOfId(IdOfHeader(h))) THEN "skip"
+           ELSE IF p \in DOMAIN order /\ \E h \in EE0[p] : Prot(h) THEN "run" ELSE ""
          listedF == SeqToSet(sum.files)
          candMM ==
            SetToSeq({MM("clean.file.unlisted", "", "", "", p, "", "") :
                       p \in {p \in cands : mode.run = "" /\ ~FProt(p) /\ p \notin listedF}})
-           \o SetToSeq({MM("clean.file.overlisted", "", "", "", p, "",
+           \o SetToSeq({MM("clean.file.overlisted", "", "", IF p \in cands THEN FWhy(p) ELSE "", p, "",
                            IF p \in usedM \cup addrS THEN "addressed"
                            ELSE IF p \in cands /\ FProt(p) THEN "protected" ELSE "foreign")
                         : p \in {p \in listedF : p \notin cands \/ FProt(p)}})
-           \o SetToSeq({MM("clean.file.removed", "", "", "", p, "",
+           \o SetToSeq({MM("clean.file.removed", "", "", FWhy(p), p, "",
                            IF FProt(p) THEN "protected" ELSE IF ~del THEN "nodelete" ELSE "unlisted")
                         : p \in {p \in cands : ~IsFile(f1, p) /\ (FProt(p) \/ ~del \/ p \notin listedF)}})
            \o SetToSeq({MM("clean.file.kept", "", "", "", p, "", "") :
